@@ -119,12 +119,15 @@ def run_case(case):
     frames = []
     expect = []      # per step: list of acceptable response PDUs (bytes) or None for silence; 'gw' marks optional gateway
     wrote_multi = False
+    only_broadcast_writes = True
     for i, s in enumerate(case['steps']):
         pdu = specpdu.encode(s['kind'], s['fields'])
         uid = s['uid']
         frames.append(refframe.build(framing, uid, pdu, i + 1, 0))
         areq = model.abstract_request(pdu)
         is_write = pdu[0] in (5, 6, 15, 16, 22, 23)
+        if is_write and not (bcast and uid == 0):
+            only_broadcast_writes = False
         if bcast and uid == 0:
             targets, respond = units, False
             labels.append('broadcast')
@@ -167,7 +170,8 @@ def run_case(case):
                 fe, framing, hosted if not single else 'single', bcast, u,
                 c04._diff(model.norm_dump(model.dump_slave(slave)), model.norm_dump(models[u].dump()))), _kf(case)))
             break
-        if slave.set_calls != exp_sets[u]:
+        # "exactly once" is stated for broadcast writes; for unicast writes only "at least the model's writes" is required
+        if (slave.set_calls != exp_sets[u]) if only_broadcast_writes else (slave.set_calls < exp_sets[u]):
             discs.append(Disc('set-count', '%s/%s: unit %d saw %d setValues calls, model expects %d' % (fe, framing, u, slave.set_calls, exp_sets[u]), _kf(case)))
             break
     # ---- responses
